@@ -312,6 +312,97 @@ def diagnose(G):
     return out
 
 # ---------------------------------------------------------------------------
+# Cross-check of GCC's .ci output against the object code it belongs to: every
+# call / tail-jump in the disassembly of a function that an RT entry can reach
+# must be an edge of the graph (and there must be no more indirect call
+# instructions than __indirect_call edges).
+FUNC_RE = re.compile(r"^[0-9a-f]+ <([^>]+)>:$")
+INSN_RE = re.compile(r"^\s*[0-9a-f]+:\s+(?:notrack\s+|bnd\s+)*(call|jmp|j[a-z]+)\s+(.*?)\s*$")
+RELOC_RE = re.compile(r"^\s*[0-9a-f]+:\s+R_X86_64_\w+\s+([^\s+-]+)")
+TARGET_RE = re.compile(r"^[0-9a-f]+ <([^>+]+)(\+0x[0-9a-f]+)?>$")
+
+def parent(sym):
+    return re.sub(r"\.cold(\.\d+)?$", "", sym)
+
+def object_edges(obj):
+    """{function: (set of direct call/jump targets, number of 'call *' instructions)}"""
+    p = subprocess.run(["objdump", "-dr", "--no-show-raw-insn", obj], stdout=subprocess.PIPE)
+    out = {}
+    cur, pending = None, False
+    for line in p.stdout.decode("utf-8", "replace").split("\n"):
+        m = FUNC_RE.match(line)
+        if m:
+            cur = parent(m.group(1)); out.setdefault(cur, [set(), 0]); pending = False
+            continue
+        if cur is None:
+            continue
+        m = INSN_RE.match(line)
+        if m:
+            op, arg = m.group(1), m.group(2)
+            pending = False
+            if arg.startswith("*"):
+                if op == "call":
+                    out[cur][1] += 1
+                continue
+            t = TARGET_RE.match(arg)
+            if t:
+                tgt = parent(t.group(1))
+                if tgt != cur:
+                    out[cur][0].add(tgt)
+                elif t.group(2) is None and op == "call":
+                    out[cur][0].add(tgt)          # direct recursion
+                pending = True                    # a relocation may follow (external target)
+            continue
+        m = RELOC_RE.match(line)
+        if m and pending:
+            # 'call 5d <cur+0x5d>' + relocation: the real target is the relocation's symbol
+            out[cur][0].add(parent(m.group(1)))
+            pending = False
+        elif line.strip() and not line.startswith("\t\t"):
+            pending = False
+    return {k: (v[0], v[1]) for k, v in out.items()}
+
+def objcheck(G, pairs):
+    """pairs: [(object file, source basename)].  Returns a list of discrepancies
+    for the functions reachable from the entries."""
+    R = reachable(G, G["entries"])
+    names = set(G["names"])
+    alias = {}
+    for a, b in G["aliases"]:
+        alias[a] = b; alias[b] = a
+    bad = []
+    checked = 0
+    for obj, base in pairs:
+        oe = object_edges(obj)
+        def node(sym):
+            for cand in (base + ":" + sym, sym):
+                if cand in names:
+                    return cand
+            for m in re.finditer(r"[CD][01]E", sym):      # C1/D1/D0 aliases of C2/D2
+                twin = sym[:m.start() + 1] + "2" + sym[m.start() + 2:]
+                for cand in (base + ":" + twin, twin):
+                    if cand in names:
+                        return cand
+            return None
+        for f, (tg, nind) in oe.items():
+            nf = node(f)
+            if nf is None or nf not in R or nf not in G["direct"]:
+                continue
+            checked += 1
+            succ = set(G["direct"][nf])
+            succ |= set(alias.get(x, x) for x in succ)
+            for t in tg:
+                nt = node(t)
+                if nt == nf and nt is not None:
+                    continue
+                if nt is None or (nt not in succ and alias.get(nt) not in succ):
+                    bad.append("object code of %s calls %s, which is not an edge of the .ci graph" % (G["dem"][nf], t))
+            ci_ind = sum(1 for a, s, r in G["sites"] if a == nf)
+            if nind > ci_ind:
+                bad.append("object code of %s has %d indirect call instruction(s), the .ci graph %d" % (G["dem"][nf], nind, ci_ind))
+    return bad, checked
+
+# ---------------------------------------------------------------------------
 def clean(s):
     return s.replace("(*", "( *").replace("*)", "* )")
 
@@ -417,6 +508,28 @@ def generate(ctx):
         G = translate(ci + [base + ".ci"], base + ".ci")
     except TranslatorError as e:
         raise ctx["BuildError"]("call-graph translator: %s" % e)
+    pairs = []
+    for c in ci + [base + ".ci"]:
+        first = open(c, errors="replace").readline()
+        m = re.match(r'graph: \{ title: "([^"]*)"', first)
+        pairs.append((c[:-3] + ".o", os.path.basename(m.group(1)) if m else ""))
+    bad, checked = objcheck(G, pairs)
+    # the dynamic harness links the 'plain' variant: its code must be the code analysed here
+    same = 0
+    try:
+        plib, pd = ctx["build_lib"]("plain", log)
+        for o in sorted(glob.glob(os.path.join(d, "*.o"))):
+            po = os.path.join(pd, os.path.basename(o))
+            def text(f):
+                q = subprocess.run(["objdump", "-dr", "--no-show-raw-insn", f], stdout=subprocess.PIPE)
+                return b"\n".join(q.stdout.split(b"\n")[2:])
+            if not os.path.exists(po) or text(o) != text(po):
+                bad.append("object code of %s differs between the analysed (cgraph) and the driven (plain) build" % os.path.basename(o))
+            else:
+                same += 1
+    except Exception as e:                          # pragma: no cover
+        bad.append("could not compare the plain and cgraph builds: %s" % e)
+    G["objcheck"] = {"functions_checked": checked, "objects_identical_to_plain_build": same, "discrepancies": bad}
     origin = "%s (content hash %s), %d .ci files" % (ctx["REPO"], vcheck.repo_hash(), len(ci) + 1)
     num = emit_coq(G, os.path.join(ctx["COQ"], "RtGraph", "Graph_gen.v"), origin)
     G["num"] = num
@@ -442,3 +555,4 @@ if __name__ == "__main__":
             print("  external reached:", x, "(allowed)" if x in G["allowed"] else "(NOT allowed)")
     for dgn in diagnose(G):
         print(json.dumps(dgn, indent=1))
+    print("object-code cross-check:", json.dumps(G["objcheck"], indent=1))
